@@ -258,7 +258,7 @@ Cands(S, newLog) ==
                        o1 == SelectSeq(S.order, LAMBDA x : x \notin V)
                    IN HeadMove(S, a1, o1)
         items == [j \in 1..Len(newLog) |-> LogItem(newLog[j])]
-    IN { [above |-> SubSeq(g.above, 1, p) \o items \o SubSeq(g.above, p + 1, Len(g.above)), order |-> g.order, V |-> V]
+    IN { [above |-> SubSeq(g.above, 1, p) \o items \o SubSeq(g.above, p + 1, Len(g.above)), order |-> g.order, V |-> V, p |-> p]
            : <<g, p, V>> \in UNION { { <<gone(V), q, V>> : q \in (IF newLog = <<>> THEN {Len(gone(V).above)} ELSE LastLogIdx(gone(V).above)..Len(gone(V).above)) } : V \in SUBSET VS }
        }
 
